@@ -89,7 +89,7 @@ static void one_wait (int tid, int reader, int var, int fkind, int timed, int dl
 		if (timed || note != NULL) {
 			api = "nsync_mu_wait_with_deadline";
 			if (timed) dl = rt_deadline_in (dl_ns);
-			RT_OP_DL (api, timed ? rt_ts_ns (dl) : 0, r = nsync_mu_wait_with_deadline (&S.mu, f, arg, eq, dl, note));
+			RT_OP_DLS (api, timed ? rt_ts_ns (dl) : 0, note == NULL, r = nsync_mu_wait_with_deadline (&S.mu, f, arg, eq, dl, note));
 		} else {
 			RT_OP (api, nsync_mu_wait (&S.mu, f, arg, eq));
 		}
